@@ -6,7 +6,10 @@
 //   compile <0|1>
 //   load <0|1>                         (Table::Load of the staged file)
 //   size <file bytes> <estimate>       (estimate = 4096 + 32*syll + 64*entries, as Table::Build computes it)
+//   tmaps <len>...                     (plain build only) lengths of the read-write mappings of the table file: Create, growths
 //   meta <num_syllables> <num_entries>
+//   sizes <sizeof Metadata HeadIndexNode TrunkIndexNode LongEntry Entry StringType SyllableId> <alignof Entry>
+//   layout <offset of the string table image = end of the index> <image size>
 //   syl <id> <hex>
 //   e <index ids ','> <extra ids ','|-> <texthex> <float bits hex>     raw walk of head/trunk/tail, pre-order
 //   corrupt <where>                    a link leaves the file image / a size is implausible (walk stops there)
@@ -39,9 +42,17 @@ using namespace rime;
 #if !defined(__SANITIZE_ADDRESS__)
 #include <dlfcn.h>
 #include <sys/mman.h>
+#include <unistd.h>
+static std::vector<size_t> g_tmaps;   // lengths of the read-write mappings of *.table.bin: [capacity at Create, growths...]
 static void* fresh_mmap(void* addr, size_t len, int prot, int flags, int fd, off_t off) {
   typedef void* (*fn)(void*, size_t, int, int, int, off_t);
   static fn real = (fn)dlsym(RTLD_NEXT, "mmap");
+  if (fd >= 0 && (flags & MAP_SHARED) && (prot & PROT_WRITE)) {
+    char link[64], name[4096];
+    snprintf(link, sizeof link, "/proc/self/fd/%d", fd);
+    ssize_t n = readlink(link, name, sizeof name - 1);
+    if (n > 10 && !strncmp(name + n - 10, ".table.bin", 10)) g_tmaps.push_back(len);
+  }
   if (fd >= 0 && (flags & MAP_SHARED) && addr == nullptr && !getenv("C06_NO_FRESH_MMAP")) {
     static uintptr_t next = 0x200000000000ULL;
     const uintptr_t G = 1ull << 30;
@@ -168,6 +179,12 @@ static void one(const std::string& dir, const std::string& name) {
     ok = dc.Compile(path());
   }
   printf("compile %d\n", ok ? 1 : 0);
+#if !defined(__SANITIZE_ADDRESS__)
+  printf("tmaps");
+  for (size_t m : g_tmaps) printf(" %zu", m);
+  printf("\n");
+  g_tmaps.clear();
+#endif
   fflush(stdout);
   {
     Table t(tpath);
@@ -178,6 +195,10 @@ static void one(const std::string& dir, const std::string& name) {
       size_t est = 4096 + 32 * (size_t)md->num_syllables + 64 * (size_t)md->num_entries;
       printf("size %zu %zu\n", t.file_size(), est);
       printf("meta %u %u\n", md->num_syllables, md->num_entries);
+      // record sizes the Lean layout model assumes, and where the index ends (= offset of the string table image)
+      printf("sizes %zu %zu %zu %zu %zu %zu %zu %zu\n", sizeof(table::Metadata), sizeof(table::HeadIndexNode), sizeof(table::TrunkIndexNode),
+             sizeof(table::LongEntry), sizeof(table::Entry), sizeof(table::StringType), sizeof(SyllableId), alignof(table::Entry));
+      if (md->string_table) printf("layout %td %u\n", (const char*)md->string_table.get() - (const char*)md, md->string_table_size);
       Img img{(const char*)md, t.file_size()};
       const table::Syllabary* sy = md->syllabary.get();
       bool sane = sy && img.in(sy, 4) && sy->size == md->num_syllables && img.in(sy->at, 4 * (size_t)sy->size);
